@@ -798,6 +798,18 @@ func makeFloatArshaler(t reflect.Type) *arshaler {
 	return &fncs
 }
 
+// legacyMapKeyKind reports whether encoding/json supports the map key kind
+// without the help of a text method.
+func legacyMapKeyKind(k reflect.Kind) bool {
+	switch k {
+	case reflect.String,
+		reflect.Int, reflect.Int8, reflect.Int16, reflect.Int32, reflect.Int64,
+		reflect.Uint, reflect.Uint8, reflect.Uint16, reflect.Uint32, reflect.Uint64, reflect.Uintptr:
+		return true
+	}
+	return false
+}
+
 func makeMapArshaler(t reflect.Type) *arshaler {
 	// NOTE: The logic below disables namespaces for tracking duplicate names
 	// when handling map keys with a unique representation.
@@ -828,6 +840,12 @@ func makeMapArshaler(t reflect.Type) *arshaler {
 			defer leavePointer(&xe.SeenPointers, va.Value)
 		}
 
+		if mo.Flags.Get(jsonflags.CallMethodsWithLegacySemantics) && mo.Marshalers == nil &&
+			!legacyMapKeyKind(t.Key().Kind()) && !implementsAny(t.Key(), textMarshalerType, textAppenderType) {
+			// Like encoding/json, only strings, integers and
+			// types with a text method can be map keys.
+			return newMarshalErrorBefore(enc, t, nil)
+		}
 		emitNull := mo.Flags.Get(jsonflags.FormatNilMapAsNull)
 		if mo.Flags.Has(jsonflags.TagFlags) {
 			if mo.Flags.Get(jsonflags.StringTag) && !mo.Flags.Get(jsonflags.ReportErrorsWithLegacySemantics) {
@@ -870,6 +888,14 @@ func makeMapArshaler(t reflect.Type) *arshaler {
 			nonDefaultKey := keyFncs.nonDefault
 			marshalKey := keyFncs.marshal
 			marshalVal := valFncs.marshal
+			if mo.Flags.Get(jsonflags.CallMethodsWithLegacySemantics) && t.Key().Kind() == reflect.String && nonDefaultKey {
+				// Like encoding/json, a key of string kind is
+				// used as it is even if it has a text method.
+				marshalKey = func(enc *jsontext.Encoder, k addressableValue, mo *jsonopts.Struct) error {
+					return enc.WriteToken(jsontext.String(k.String()))
+				}
+				nonDefaultKey = false
+			}
 			if mo.Marshalers != nil {
 				var ok bool
 				marshalKey, ok = mo.Marshalers.(*Marshalers).lookup(marshalKey, t.Key())
@@ -991,6 +1017,16 @@ func makeMapArshaler(t reflect.Type) *arshaler {
 				default:
 					return newInvalidFormatError(dec, t)
 				}
+			}
+		}
+		if uo.Flags.Get(jsonflags.CallMethodsWithLegacySemantics) && uo.Unmarshalers == nil && dec.PeekKind() == '{' &&
+			!implementsAny(reflect.PointerTo(t.Key()), textUnmarshalerType) {
+			switch t.Key().Kind() {
+			case reflect.Bool, reflect.Float32, reflect.Float64, reflect.Pointer, reflect.Interface:
+				// Like encoding/json, only strings, integers and
+				// types with a text method can be map keys
+				// (other kinds fail below when the first key is decoded).
+				return newUnmarshalErrorBeforeWithSkipping(dec, t, nil)
 			}
 		}
 		tok, err := dec.ReadToken()
